@@ -61,7 +61,7 @@ def special_c16(pid, tier, seed, st, res, chk):
     sequential ones, no goroutine may stay alive, the race detector must stay silent"""
     harness = os.path.join(chk.BIN, "harness")
     race = os.path.join(chk.BIN, "harness-race")
-    r = chk.run(["go", "build", "-race", "-tags", "verif", "-o", race, "./cmd/harness"], cwd=os.path.join(chk.VERIF, "go"), env=chk.GOENV)
+    r = chk.run(["go", "build"] + chk.GOMOD + ["-race", "-tags", "verif", "-o", race, "./cmd/harness"], cwd=os.path.join(chk.VERIF, "go"), env=chk.GOENV)
     have_race = r.returncode == 0
     ops, impl = res.get("_ops", []), res.get("_impl", [])
     expect = dict(zip(ops, impl))
